@@ -278,11 +278,14 @@ impl Socket {
         flags: RecvFlags,
     ) -> impl Stream<Item = io::Result<BufferRef>> {
         let fd = self.to_shared_fd();
-        let rt = Runtime::current();
+        // No `Runtime` clone is kept in the stream: a clone owned by a task keeps
+        // `Runtime::drop` from clearing the executor, which then never drops the task.
         SubmitMultiStream::new(move || {
-            let buffer_pool = rt.buffer_pool()?;
-            let op = RecvMulti::new(fd.clone(), &buffer_pool, len, flags)?;
-            Ok(rt.submit_multi(op).into_managed(buffer_pool))
+            Runtime::with_current(|rt| {
+                let buffer_pool = rt.buffer_pool()?;
+                let op = RecvMulti::new(fd.clone(), &buffer_pool, len, flags)?;
+                Ok(rt.submit_multi(op).into_managed(buffer_pool))
+            })
         })
     }
 
@@ -380,11 +383,12 @@ impl Socket {
         flags: RecvFlags,
     ) -> impl Stream<Item = io::Result<RecvFromMultiResult>> {
         let fd = self.to_shared_fd();
-        let rt = Runtime::current();
         SubmitMultiStream::new(move || {
-            let buffer_pool = rt.buffer_pool()?;
-            let op = RecvFromMulti::new(fd.clone(), &buffer_pool, flags)?;
-            Ok(rt.submit_multi(op).into_managed(buffer_pool))
+            Runtime::with_current(|rt| {
+                let buffer_pool = rt.buffer_pool()?;
+                let op = RecvFromMulti::new(fd.clone(), &buffer_pool, flags)?;
+                Ok(rt.submit_multi(op).into_managed(buffer_pool))
+            })
         })
     }
 
@@ -451,14 +455,15 @@ impl Socket {
         flags: RecvFlags,
     ) -> impl Stream<Item = io::Result<RecvMsgMultiResult>> {
         let fd = self.to_shared_fd();
-        let rt = Runtime::current();
         SubmitMultiStream::new(move || {
-            let buffer_pool = rt.buffer_pool()?;
-            let op = RecvMsgMulti::new(fd.clone(), &buffer_pool, control_len, flags)?;
-            io::Result::Ok(
-                rt.submit_multi(op)
-                    .into_managed_with(buffer_pool, control_len),
-            )
+            Runtime::with_current(|rt| {
+                let buffer_pool = rt.buffer_pool()?;
+                let op = RecvMsgMulti::new(fd.clone(), &buffer_pool, control_len, flags)?;
+                io::Result::Ok(
+                    rt.submit_multi(op)
+                        .into_managed_with(buffer_pool, control_len),
+                )
+            })
         })
     }
 
